@@ -87,6 +87,19 @@ func (r *Run) havoc(t types.Type) Value {
 		return sv
 	case *types.Slice:
 		n := int(r.chooseSeqLen())
+		if b, ok := u.Elem().Underlying().(*types.Basic); ok && b.Kind() == types.Uint8 && r.param("bytelens", 0) != 0 {
+			// byte strings (addresses, salts, ...) of one of the listed lengths (param bytelens = bit mask)
+			mask := r.param("bytelens", 0)
+			v := r.hvar(64)
+			c := False
+			for i := int64(0); i < 62; i++ {
+				if mask&(1<<uint(i)) != 0 {
+					c = Or(c, Eq(v, BVi(i, 64)))
+				}
+			}
+			r.addPC(c)
+			n = int(r.concretise(v, "havoc byte string length"))
+		}
 		if n == 0 {
 			return &SliceV{}
 		}
